@@ -120,7 +120,8 @@ def correspondence(ctx):
 
 
 # ------------------------------------------------------------------ tables
-NAMES = ["orders_per_user", "a<b>&c", "x", "Ünï", "m \"q\"", "long_metric_name_with_many_chars", "<script>", "&amp;"]
+NAMES = ["orders_per_user", "a<b>&c", "x", "Ünï", "m \"q\"", "long_metric_name_with_many_chars", "<script>", "&amp;",
+         "007", "1e3", "nan", "inf", "12345.678", "-0", "1"]      # text that looks like a number is still text
 
 
 def rand_result(rng):
@@ -168,6 +169,11 @@ def _tables(ctx):
         dicts = obj.to_dicts()
         if len(pretty) != len(dicts):
             ctx.violations.append({"what": "to_pretty_dicts and to_dicts have different numbers of rows", "input": {"rows": rows}})
+        for pr, dd in zip(pretty, dicts):
+            for k in ks:
+                if isinstance(dd.get(k), str) and pr[k] != dd[k]:
+                    ctx.violations.append({"what": "a text cell is not shown as it is", "detail": f"{k}: {dd[k]!r} rendered as {pr[k]!r}",
+                                           "input": {"rows": rows}})
         lines = expect[-2].split("\n")
         if len(set(map(len, lines))) != 1 or len(lines) != len(rows) + 1:
             ctx.violations.append({"what": "to_string is not a rectangular table with one line per row", "detail": expect[-2],
